@@ -5,7 +5,7 @@
 From Coq Require Import ZArith List Bool.
 Require Import V.Lib.Val V.Lib.Result V.Dex.LebModel V.Misc.TermModel V.Misc.TermProofs V.Dex.StringsModel.
 Require V.Axml.AxmlModel V.Axml.AxmlTerm V.Axml.ArscTableModel V.Axml.ArscTableTerm.
-Require V.Dex.ClassDataModel V.Dex.EncodedValueModel V.Dex.DexTerm.
+Require V.Dex.ClassDataModel V.Dex.EncodedValueModel V.Dex.DexTerm V.Dex.MapWalkModel V.Dex.MapWalkProofs.
 Import ListNotations.
 Open Scope Z_scope.
 
@@ -68,3 +68,22 @@ Theorem C35_class_data_loops_end : forall f1 f2 cnt prev bs, (length bs <= f1)%n
   ClassDataModel.read_methods f1 cnt prev bs = ClassDataModel.read_methods f2 cnt prev bs.
 Proof. exact (fun f1 f2 cnt prev bs H1 H2 => conj (DexTerm.read_fields_fuel f1 f2 cnt prev bs H1 H2) (DexTerm.read_methods_fuel f1 f2 cnt prev bs H1 H2)). Qed.
 Print Assumptions C35_class_data_loops_end.
+
+(* ---- the map list of a DEX file and the sections it names ---- *)
+(* MapList.__init__ as modelled - the count of map items and every map item read from the file, then for every item its section
+   parsed from its own offset: the id tables, type lists, annotation set ref lists, annotation set items, annotations directories,
+   each with a count taken from the file - ends on EVERY byte string and every offset within fuel (bytes + 1) per loop: it returns
+   the sections or raises.  Every record reader either fails or leaves fewer bytes than it found, so no count - 2^32 - 1 map items,
+   2^32 - 1 records, a list that announces 2^32 - 1 entries - can keep a loop going beyond the end of the data. *)
+Theorem C35_map_list_and_sections_end : forall buf off, MapWalkModel.map_list (S (length buf)) buf off <> Err OutOfFuel.
+Proof. exact MapWalkProofs.map_list_ends. Qed.
+Print Assumptions C35_map_list_and_sections_end.
+Theorem C35_a_section_ends : forall buf ty count off, MapWalkModel.section (S (length buf)) buf ty count off <> Err OutOfFuel.
+Proof. exact MapWalkProofs.section_ends. Qed.
+(* ... and a map that is read has at most one item per twelve bytes of the file *)
+Theorem C35_map_items_are_bounded_by_the_file : forall fuel buf off l, MapWalkModel.map_list fuel buf off = Ok l -> (12 * length l + 4 <= length buf)%nat.
+Proof. exact MapWalkProofs.map_list_size. Qed.
+Example C35_map_nonvacuous :
+  MapWalkModel.map_list 60 (firstn 36 MapWalkProofs.ex_buf ++ [255;255;255;255] ++ skipn 40 MapWalkProofs.ex_buf) 16 = Err StructError /\
+  exists l, MapWalkModel.map_list (S (length MapWalkProofs.ex_buf)) MapWalkProofs.ex_buf 16 = Ok l /\ length l = 3%nat.
+Proof. split; [exact MapWalkProofs.map_example_huge | eexists; split; [exact MapWalkProofs.map_example | reflexivity]]. Qed.
